@@ -1151,6 +1151,87 @@ def gen_fold_expr(rng, depth, kind):
     return "(%s) %s (%s)" % (a, rng.choice(ops), b)
 
 
+# ---- multiplied sequence literals: TupleNode/ListNode args + mult_factor, str/bytes repetition ----
+# ConstantFolding keeps `literal * k` as the literal with a pending `mult_factor`; every rule that looks at the
+# literal's item list (slicing, indexing, len, +, in, comparison) must account for the factor.
+
+MS_SEQS = ["(1, 2)", "(1, 2, 3)", "[1, 2]", "[0]", "(1, 2.0, True)", "(0.0, -0.0)", "(7,)", "['a', b'a']", "'ab'", "'abc'", "b'ab'", "()", "[]"]
+MS_FACTORS = ["{s} * 3", "3 * {s}", "{s} * 2", "{s} * 2 * 2", "2 * {s} * 3", "({s} * 2) * 2", "{s} * 1", "{s} * 0", "{s} * -1", "{s} * True", "0x2 * {s}",
+              "{s} * n", "n * {s}", "{s} * n * 2", "{s} * 2 * n", "{s} * z", "{s} * m"]          # n = 3, z = 0, m = -2 at run time
+MS_MUST = ["((1, 2) * 3)[1:4]", "([0] * 10)[:5]", "((1, 2, 3) * 2)[:2]", "(3 * (1, 2))[1:4]", "([1, 2] * 3)[1:4]", "((1, 2.0, True) * 2)[-2:]",
+           "((1, 2) * 2 * 2)[1:]", "((1, 2) * 3)[:]", "('ab' * 3)[1:4]", "len((1, 2) * 3)", "((1, 2) * 3)[3]", "((1, 2) * 3) == (1, 2, 1, 2, 1, 2)",
+           "(0.0, -0.0) * 2 == (0.0,) * 4", "2 in (1, 2) * 3", "((1, 2) * 3)[1:4] == (2, 1, 2)", "([1] * 0) or 7", "not (1, 2) * 0"]
+MS_SLICES = ["[1:4]", "[:2]", "[:5]", "[-2:]", "[:]", "[2:]", "[1:-1]", "[3:100]", "[-100:2]", "[4:1]", "[::2]", "[::-1]", "[1:5:2]", "[0:0]", "[:1]", "[-3:-1]", "[5:]"]
+MS_INDEX = ["[0]", "[1]", "[2]", "[3]", "[-1]", "[-3]", "[5]"]
+MS_OTHER = [("len", "len({e})"), ("concat", "{e} + {s}"), ("concat", "{s} + {e}"), ("concat", "{e} + {e}"), ("in", "2 in {e}"), ("in", "9 not in {e}"), ("in", "True in {e}"),
+            ("cmp", "{e} == {s}"), ("cmp", "{e} == {s} + {s} + {s}"), ("cmp", "{e} != {s} * 3"), ("cmp", "{e} < {s} + {s}"), ("cmp", "{e} > {s}"), ("bool", "not {e}"),
+            ("bool", "{e} or 5"), ("bool", "{e} and 5"), ("conv", "tuple({e})"), ("conv", "list({e})"), ("mul", "({e}) * 2"), ("unpack", "[*{e}, 9]"), ("nest", "({e}, {e}[1:3])"),
+            ("nest", "(({e})[:3] * 2)[1:5]"), ("cond", "{e}[1:] if {e} else 0")]
+
+
+def ms_case(label, seq, fac, op):
+    e = "(" + fac.format(s=seq) + ")"
+    expr = op.format(e=e, s=seq) if "{e}" in op else e + op
+    pre = ""
+    for name, val in (("n", "3"), ("z", "0"), ("m", "-2")):
+        if re.search(r"\b%s\b" % name, fac):
+            pre += "%s = int('%s')\n    " % (name, val)
+    body = pre + "return " + expr
+    return ("mulseq-" + label, body, body)
+
+
+def ms_ok(case):
+    """CPython evaluates the case (an exception there would be a compile-time error or is not a constant question)."""
+    ns = {}
+    try:
+        exec("def f():\n    " + case[2], ns)
+        ns["f"]()
+        return True
+    except Exception:
+        return False
+
+
+def gen_multseq_cases(ctx):
+    rng = ctx.rng
+    core, seen = [], set()
+
+    def add(c):
+        if c[1] not in seen and ms_ok(c):
+            seen.add(c[1])
+            core.append(c)
+    # fixed grid: the shapes that cut inside one period, on both sides of a period boundary, every factor kind
+    for seq in ("(1, 2)", "[1, 2]", "(1, 2, 3)", "[0]", "'ab'", "b'ab'"):
+        for fac in ("{s} * 3", "3 * {s}", "{s} * 2 * 2", "{s} * n", "{s} * 1", "{s} * 0", "{s} * -1"):
+            for op in ("[1:4]", "[:2]", "[:5]", "[-2:]", "[:]", "[::2]"):
+                add(ms_case("slice", seq, fac, op))
+            for op in ("[0]", "[3]", "[-1]"):
+                add(ms_case("index", seq, fac, op))
+            add(ms_case("len", seq, fac, "len({e})"))
+            add(ms_case("in", seq, fac, "2 in {e}"))
+            add(ms_case("cmp", seq, fac, "{e} == {s} + {s} + {s}"))
+            add(ms_case("concat", seq, fac, "{e} + {s}"))
+    if ctx.quick:
+        rng.shuffle(core)
+        core = core[:70]
+        seen = set(c[1] for c in core)
+    for e in MS_MUST:            # always: slices that cut inside one period of a repeated literal
+        lab = "cmp" if "==" in e else "len" if e.startswith("len(") else "in" if " in " in e else "bool" if (" or " in e or e.startswith("not ")) else \
+            "slice" if ":" in e else "index"
+        add(("mulseq-" + lab, "return " + e, "return " + e))
+    # seeded sample of the full product
+    for _ in range(ctx.n(40, 600)):
+        seq, fac = rng.choice(MS_SEQS), rng.choice(MS_FACTORS)
+        r = rng.random()
+        if r < 0.45:
+            add(ms_case("slice", seq, fac, rng.choice(MS_SLICES)))
+        elif r < 0.6:
+            add(ms_case("index", seq, fac, rng.choice(MS_INDEX)))
+        else:
+            label, op = rng.choice(MS_OTHER)
+            add(ms_case(label, seq, fac, op))
+    return core
+
+
 def fold_module(cases):
     cy = py = ""
     for i, (_, cb, pb) in enumerate(cases):
@@ -1165,7 +1246,7 @@ def build_cases(ctx, name, cases, depth=0):
     if depth == 0:
         solo = [c for c in cases if c[0] in SOLO_LABELS]
         rest = [c for c in cases if c[0] not in SOLO_LABELS]
-        chunks = [[c] for c in solo] + [rest[i:i + 80] for i in range(0, len(rest), 80)]
+        chunks = [[c] for c in solo] + [rest[i:i + 100] for i in range(0, len(rest), 100)]
     else:
         chunks = [cases]
     builts = []
@@ -1261,6 +1342,9 @@ def leg_c(ctx):
             cases.append(P("rand-%s-expr" % ("int" if kind == "i" else "float"), e))
             if rng.random() < 0.25:
                 cases.append(P("rand-tuple-expr", "(%s, %s)" % (e, e2)))
+        ms = gen_multseq_cases(ctx)
+        ctx.notes["C_multiplied_sequence_cases"] = len(ms)
+        cases += ms
     results = build_cases(ctx, "c09fold", cases)
     carith = []
     for (label, cb, pb), im, orc in results:
@@ -1314,6 +1398,11 @@ def regenerated_obligations(ctx):
     if len(found) != len(names) or not thr:
         ctx.obligation("C09 parameters extracted from Lexicon.py / ExprNodes.py", False, "translator cannot find the digit classes / threshold any more: %s %s" % (sorted(found), bool(thr)))
         return
+    opt = open(os.path.join(ctx.stage, "Cython", "Compiler", "Optimize.py")).read()
+    m = re.search(r"def visit_SliceIndexNode\(self, node\):(.*?)\n    def ", opt, re.S)
+    guard = bool(m and re.search(r"if base\.is_sequence_constructor and base\.mult_factor is None:\s*\n\s*base\.args = base\.args\[start:stop\]", m.group(1)))
+    ctx.obligation("ConstantFolding.visit_SliceIndexNode cuts a literal's item list only without pending mult_factor (model foldSlice true; theorem fold_slice_sound)",
+                   guard, "guard `base.is_sequence_constructor and base.mult_factor is None` " + ("present" if guard else "NOT found: theorem fold_slice_unsound_without_guard applies"))
     src = "import CyVerif.Model.C09\nopen CyVerif.C09\n"
     for lean, chars in sorted(found.items()):
         lst = "[" + ",".join("'%s'" % c for c in chars) + "]"
